@@ -498,6 +498,26 @@ pub fn generate(seed: u64, n: usize, thorough: bool, corpus: Option<&str>) -> Ve
         }
         for (k, src) in progs.into_iter().enumerate() { cases.push(run(src, vec!["stream:non-affine-bound-cycles".into(), format!("non-affine-bound-cycles:{}", k)], &mut pool)); }
     }
+    // ---- min / max whose operands are FIXED to equal values, incl. the two zeros (0.0 against -0.0 through `-x`, `-y = 0`,
+    //      `Real(-0.0, -0.0)`): mutual domination must keep one operand, never prune all of them - deterministic
+    //      (seeded change C18-16)
+    {
+        let mut k = 0usize;
+        let fixes: [(&str, &str, &str); 7] = [
+            ("x = 0", "x as Real", "x"), ("-x = 0", "x as Real", "x"), ("x = 1", "x as Real", "x"), ("0 - x = 2", "x as Real", "x"),
+            ("x >= 0", "x as Real(0, 0)", "x"), ("x <= 0", "x as Real(-0.0, -0.0)", "x"), ("2 * x = 0", "x as IntegerRange(0, 0)", "x"),
+        ];
+        let seconds = ["-x", "x", "y", "-y", "0 * x", "x - x", "0", "-0.0", "x + y", "abs{x}"];
+        for f in ["max", "min"] { for (row, decl, a) in fixes.iter() { for b in seconds.iter() {
+            for (yrow, ydecl) in [("y = 0", "y as Real"), ("-y = 0", "y as Real"), ("y <= 0", "y as Real(-0.0, -0.0)")] {
+                if !b.contains('y') && yrow != "y = 0" { continue; }
+                for cmp in [">=", "<="] {
+                    let src = format!("min z\ns.t.\n    z {} {} {{ {}, {} }}\n    {}\n    {}\ndefine\n    z as Real(-10, 10)\n    {}\n    {}\n", cmp, f, a, b, row, yrow, decl, ydecl);
+                    cases.push(run(src, vec!["stream:extremes-of-fixed-operands".into(), format!("extremes-of-fixed-operands:{}", k)], &mut pool)); k += 1;
+                }
+            }
+        } } }
+    }
     // ---- declared integer ranges with BOTH bounds near opposite ends of the i64 range (their difference does not fit i64), also
     //      through constants and in quantified declarations: TooLarge / Other, never a panic - deterministic
     {
